@@ -321,6 +321,12 @@ func writeTL2(o verifc14.Obj) (b []byte, err error) {
 	err = try(func() error { b = o.(verifc14.TL2).WriteTL2(nil, &basictl.TL2WriteContext{}); return nil })
 	return
 }
+// writeTL2Shared writes through a caller-owned context that other values (of other types) have used before
+func writeTL2Shared(o verifc14.Obj, tctx *basictl.TL2WriteContext) (b []byte, err error) {
+	err = try(func() error { b = o.(verifc14.TL2).WriteTL2(nil, tctx); return nil })
+	return
+}
+
 func readTL2(o verifc14.Obj, b []byte) (rest []byte, err error) {
 	err = try(func() error { var e error; rest, e = o.(verifc14.TL2).ReadTL2(b, &basictl.TL2ReadContext{}); return e })
 	return
@@ -585,6 +591,9 @@ type ctx struct {
 	supported map[string]bool // "<schema>/<name>" entries the Lean descriptor table has
 	results   map[string]bool // functions whose result descriptor exists
 	tl2       map[string]bool // types in the TL2 table of the model
+	kept      []keptFrame     // frames kept alive inside one frame case
+	tl2Items  []verifc14.Item // items with generated TL2 code
+	shared    *basictl.TL2WriteContext // the TL2 write context shared by all TL2 writes of one case
 }
 
 // decObs runs the real reader on `in` and renders what the model must reproduce: error, or remaining length and the
@@ -749,6 +758,45 @@ func (c *ctx) tlCase(it verifc14.Item, r *verifx.Rng) {
 	if it.HasTL2 {
 		h.Stat("tl.tl2", 1)
 		t2, err = writeTL2(v)
+		// the optional shared write context: one long-lived TL2WriteContext used for this value and for values of other TL2
+		// types, in random order, several rounds — the encoding is a function of the value only
+		c.shared = &basictl.TL2WriteContext{}
+		if err == nil && len(c.tl2Items) > 0 {
+			type sv struct {
+				key   string
+				o     verifc14.Obj
+				fresh []byte
+			}
+			vals := []sv{{key, v, t2}}
+			for k, n := 0, r.Range(1, 3); k < n; k++ {
+				oit := c.tl2Items[r.Intn(len(c.tl2Items))]
+				o := oit.New()
+				fill(h, r, o)
+				if fb, e := writeTL2(o); e == nil {
+					vals = append(vals, sv{oit.Schema + "/" + oit.Name, o, fb})
+				}
+			}
+			for round := 0; round < 2; round++ {
+				for k := len(vals) - 1; k > 0; k-- { // shuffle
+					j := r.Intn(k + 1)
+					vals[k], vals[j] = vals[j], vals[k]
+				}
+				for _, x := range vals {
+					sb, e := writeTL2Shared(x.o, c.shared)
+					h.Stat("tl2.shared-context-writes", 1)
+					if e != nil {
+						h.Viol("tl2-write-panic", "%s: WriteTL2 with a TL2WriteContext last used by another value failed: %v (order this round: %v)", x.key, e, func() (ks []string) {
+							for _, y := range vals {
+								ks = append(ks, y.key)
+							}
+							return
+						}())
+					} else if !sameBytes(sb, x.fresh) {
+						h.Viol("tl2-shared-context-differs", "%s: WriteTL2 with a shared context gives %s, with a fresh one %s", x.key, short(sb), short(x.fresh))
+					}
+				}
+			}
+		}
 		if err != nil {
 			h.Viol("tl2-write:"+key, "WriteTL2 failed: %v", err)
 		} else {
@@ -926,7 +974,7 @@ func (c *ctx) tlCase(it verifc14.Item, r *verifx.Rng) {
 				}
 				return "err"
 			}
-			re, err := writeTL2(o)
+			re, err := writeTL2Shared(o, c.shared) // the context other types of this case have written through
 			if err != nil {
 				return "werr"
 			}
@@ -1090,7 +1138,50 @@ func weakPayload(h *verifx.H, r *verifx.Rng) []byte {
 	return x
 }
 
+// keptFrame: a frame the caller keeps while compressing other payloads (send queue, disk cache): CompressAndFrame's result
+// is a value — it must not change under later calls
+type keptFrame struct {
+	x, frame, asReturned []byte
+}
+
+func (c *ctx) keep(x, frame []byte) {
+	if len(x) > 1<<20 {
+		return
+	}
+	c.kept = append(c.kept, keptFrame{x: x, frame: frame, asReturned: append([]byte{}, frame...)})
+}
+
 func (c *ctx) frameCase(r *verifx.Rng, big bool, bigIdx int) {
+	h := c.h
+	c.kept = c.kept[:0]
+	// frames of incompressible payloads of different sizes (stored as they are), interleaved with compressible ones, all kept
+	for k, n := 0, r.Range(3, 6); k < n; k++ {
+		var px []byte
+		if k%2 == 0 {
+			px = r.Bytes([]int{1, 5, 16, 100, 700, 3000}[r.Intn(6)] + r.Intn(7))
+		} else {
+			px = bytes.Repeat(r.Bytes(r.Range(1, 4)), r.Range(10, 300))
+		}
+		var pf []byte
+		if err := try(func() error { pf = compress.CompressAndFrame(px); return nil }); err == nil {
+			c.keep(px, pf)
+		}
+	}
+	c.frameCaseInner(r, big, bigIdx)
+	// every kept frame after all later CompressAndFrame calls of this case
+	for i, k := range c.kept {
+		out, ok, stage := unframeReal(k.frame)
+		if !sameBytes(k.frame, k.asReturned) || !ok || !sameBytes(out, k.x) {
+			h.Viol("frame-changed-after-later-compress", "frame %d of %d kept in this case (payload %d bytes %s) was %s when returned and is %s after later CompressAndFrame calls; it now decompresses ok=%v stage=%s to %d bytes",
+				i, len(c.kept), len(k.x), hexUpTo(k.x, 200), hexUpTo(k.asReturned, 200), hexUpTo(k.frame, 200), ok, stage, len(out))
+			break
+		}
+	}
+	h.Stat("frame.kept-and-rechecked", int64(len(c.kept)))
+	c.kept = c.kept[:0]
+}
+
+func (c *ctx) frameCaseInner(r *verifx.Rng, big bool, bigIdx int) {
 	h := c.h
 	h.Stat("frame.cases", 1)
 	const maxU = data_model.MaxUncompressedBucketSize
@@ -1137,6 +1228,7 @@ func (c *ctx) frameCase(r *verifx.Rng, big bool, bigIdx int) {
 		h.Viol("frame-compress-panic", "CompressAndFrame panicked on %d bytes: %v", len(x), err)
 		return
 	}
+	c.keep(x, frame)
 	// ---- direct oracle
 	{
 		out, ok, stage := unframeReal(frame)
@@ -1173,6 +1265,7 @@ func (c *ctx) frameCase(r *verifx.Rng, big bool, bigIdx int) {
 			h.Viol("frame-compress-panic", "CompressAndFrame panicked on a %d byte weakly compressible payload: %v payload=%s", len(wx), err, hexUpTo(wx, 6000))
 			continue
 		}
+		c.keep(wx, wf)
 		if out, ok, stage := unframeReal(wf); !ok || !sameBytes(out, wx) {
 			h.Viol("frame-roundtrip", "frame of a %d byte weakly compressible payload does not decompress to the original: ok=%v stage=%s got %d bytes payload=%s", len(wx), ok, stage, len(out), hexUpTo(wx, 6000))
 		}
@@ -1541,6 +1634,12 @@ func main() {
 			}
 		}
 	}
+	for _, it := range items {
+		if it.HasTL2 {
+			c.tl2Items = append(c.tl2Items, it)
+		}
+	}
+	c.shared = &basictl.TL2WriteContext{}
 	bigLeft, bigIdx := 3, 0
 	if h.Tier == "thorough" {
 		bigLeft = 9
